@@ -1,15 +1,15 @@
-/* C18: secp256k1_ellswift_xdh - party selection, scalar gate/masking, oracle wiring, hash streams.
+/* C18: secp256k1_ellswift_xdh - party selection, secret-key gate, oracle usage, hash streams.
  * Every pointer NULL-or-object, every byte content, every party value; hashfp = BIP-324, prefix, or a
  * caller-supplied function (stub, arbitrary result in {0,1}), or NULL (illegal).
  * ASSUMED oracles with ghost logs (assumed_C18.h): secp256k1_ellswift_xswiftec_frac_var (the forward map),
- * secp256k1_ecmult_const_xonly.  SHA-256 object: stream contracts (hash_log.h).
- * Real code: fe_set_b32_mod, scalar parsing/masking, fe_normalize, fe_get_b32, hash selection, both hashers.
- *
- * Obligations: party != 0 decodes ell_a64, party == 0 decodes ell_b64 ("theirs"); the x-only multiplication
- * gets the fraction the map returned, the scalar (or 1 if invalid), known_on_curve = 1; the 32 bytes hashed
- * are the big-endian normalised result; BIP-324 stream = tag midstate || ell_a64 || ell_b64 || x32 (224 bytes
- * incl. the 64 of the midstate) REGARDLESS of party; prefix stream = data[64] || ell_a64 || ell_b64 || x32 from the
- * IV; ret = (hash result != 0) && 0 < seckey < n. */
+ * secp256k1_ecmult_const_xonly (its documented precondition "q must not be zero" is an obligation on the caller).
+ * SHA-256 object: STREAM-level contracts (hash_log.h); a refactoring that replaces the tag midstate by
+ * sha256_initialize_tagged, or hand-rolls a final block, would need the block-level idiom - not done here.
+ * Rule followed (audit 1): secret key 0 or >= n => ret 0 and nothing else demanded on that path (no call counts,
+ * no dummy operand).  Valid key: party != 0 decodes ell_a64, party == 0 decodes ell_b64 ("theirs"); the x-only
+ * multiplication gets the fraction the map returned and the secret key; the 32 bytes hashed are the big-endian
+ * result (mod p); BIP-324 stream = tag midstate || ell_a64 || ell_b64 || x32 REGARDLESS of party; prefix stream =
+ * data[64] || ell_a64 || ell_b64 || x32 from the IV; ret = (hash result != 0). */
 #include "assumed_C18.h"
 #include "hash_log.h"
 #include "../C04/spec.h"
@@ -42,29 +42,29 @@ void h_xdh(void) {
     ret = secp256k1_ellswift_xdh(&ctx, use_out ? out : NULL, use_a ? ell_a : NULL, use_b ? ell_b : NULL, use_key ? seckey : NULL, party, fp, prefix);
     __CPROVER_assert(g_error == 0, "C18 xdh: error callback never invoked");
     __CPROVER_assert(ret == 0 || ret == 1, "C18 xdh: returns 0 or 1");
-    if (!use_out || !use_a || !use_b || !use_key || mode == 0) __CPROVER_assert(ret == 0 && g_illegal == 1 && g_frac_n == 0 && g_xo_n == 0 && g_st_n == 0 && g_fin_n == 0, "C18 xdh: NULL argument (incl. hashfp) is illegal, returns 0, nothing computed");
+    if (!use_out || !use_a || !use_b || !use_key || mode == 0) __CPROVER_assert(ret == 0 && g_illegal == 1, "C18 xdh: NULL argument (incl. hashfp) is illegal and returns 0");
+    else if (bad) { __CPROVER_assert(g_illegal == 0, "C18 xdh: an out-of-range secret key is not an illegal argument"); __CPROVER_assert(ret == 0, "C18 xdh: secret key 0 or >= n returns 0"); }
     else {
         __CPROVER_assert(g_illegal == 0, "C18 xdh: no illegal callback for non-NULL arguments");
-        if (bad) __CPROVER_assert(ret == 0, "C18 xdh: secret key 0 or >= n returns 0");
-        __CPROVER_assert(g_frac_n == 1 && g_xo_n == 1, "C18 xdh: one map evaluation and one x-only multiplication on every path");
+        __CPROVER_assert(g_frac_n >= 1 && g_xo_n >= 1, "C18 xdh: the map is evaluated and an x-only multiplication made");
         __CPROVER_assert(sp_eq(sp_modp(fval(&g_frac_u0)), sp_modp(sp_be32(theirs))) && sp_eq(sp_modp(fval(&g_frac_t0)), sp_modp(sp_be32(theirs + 32))),
                          "C18 xdh: the encoding decoded is the OTHER party's: ell_a64 if party != 0, ell_b64 if party == 0; u = bytes 0..31, t = bytes 32..63 (mod p)");
-        __CPROVER_assert(FE_EQ(g_xo_n0, g_frac_xn0) && g_xo_has_d0 && FE_EQ(g_xo_d0, g_frac_xd0) && g_xo_known0 == 1, "C18 xdh: the multiplication gets the fraction xn/xd returned by the map, known to be on the curve");
-        __CPROVER_assert(sp_eq(sval(&g_xo_q0), bad ? sp_u64(1) : sv), "C18 xdh: the multiplication runs on the secret key, or on 1 when it is invalid (masking)");
+        __CPROVER_assert(FE_EQ(g_xo_n0, g_frac_xn0) && g_xo_has_d0 && FE_EQ(g_xo_d0, g_frac_xd0), "C18 xdh: the multiplication gets the fraction xn/xd returned by the map");
+        __CPROVER_assert(sp_eq(sval(&g_xo_q0), sv), "C18 xdh: the multiplication runs on the secret key");
         px = sp_modp(fval(&g_xo_r0));
         if (mode == 1) {
-            __CPROVER_assert(g_st_n == 1 && g_fin_n == 0, "C18 xdh: a caller-supplied hash function is called exactly once, no built-in hashing");
+            __CPROVER_assert(g_st_n >= 1 && g_fin_n == 0, "C18 xdh: a caller-supplied hash function is called, no built-in hashing");
             __CPROVER_assert(g_st_out == (const void *)out && g_st_a == (const void *)ell_a && g_st_b == (const void *)ell_b && g_st_data == (const void *)prefix, "C18 xdh: hashfp receives output, ell_a64, ell_b64 (in this order, independent of party) and data unchanged");
             __CPROVER_assert(sp_eq(sp_be32(g_st_x), px), "C18 xdh: x32 handed to hashfp is the big-endian normalised shared x coordinate");
-            __CPROVER_assert(ret == (g_st_ret && !bad), "C18 xdh: returns 1 exactly when hashfp returned non-zero and the key is valid");
+            __CPROVER_assert(ret == (g_st_ret != 0), "C18 xdh: with a valid key, returns 1 exactly when hashfp returned non-zero");
             if (ret == 1 && party) REACH("xdh custom hash success party A side");
             if (ret == 1 && !party) REACH("xdh custom hash success party B side");
-            if (!bad && ret == 0) REACH("xdh hashfp returned 0");
+            if (ret == 0) REACH("xdh hashfp returned 0");
         } else {
             uint64_t base = mode == 2 ? 64 : 0;    /* stream position of the first byte written after the start state */
             uint64_t o = g_wpos - base;
-            __CPROVER_assert(g_st_n == 0 && g_fin_n == 1, "C18 xdh: built-in hash: exactly one SHA-256 computation");
-            __CPROVER_assert(ret == !bad, "C18 xdh: built-in hash: returns 1 exactly for 0 < seckey < n");
+            __CPROVER_assert(g_st_n == 0 && g_fin_n >= 1, "C18 xdh: built-in hash: a SHA-256 computation, not the caller stub");
+            __CPROVER_assert(ret == 1, "C18 xdh: built-in hash: returns 1 for 0 < seckey < n");
             if (g_we == 0) {
                 if (mode == 2) {
                     __CPROVER_assert(g_w_started && g_w_b0 == 64 && g_w_s0 == 0x8c12d730ul && g_w_s7 == 0xcfb52549ul, "C18 xdh: BIP-324 hash starts from the bip324_ellswift_xonly_ecdh tag midstate (64 bytes absorbed)");
@@ -87,7 +87,8 @@ void h_xdh(void) {
             if (ret == 1 && mode == 2 && !party && g_we == 0 && g_wpos == 64 + 150) REACH("xdh bip324 success party B side, watching an x byte");
             if (ret == 1 && mode == 3) REACH("xdh prefix hash success");
         }
-        if (bad && sp_is0(sv)) REACH("xdh zero key");
-        if (bad && sp_eq(sv, sp_n())) REACH("xdh key == n");
     }
+    if (use_out && use_a && use_b && use_key && mode != 0 && bad && sp_is0(sv)) REACH("xdh zero key");
+    if (use_out && use_a && use_b && use_key && mode != 0 && bad && sp_eq(sv, sp_n())) REACH("xdh key == n");
+    if (!use_out || !use_a || !use_b || !use_key || mode == 0) REACH("xdh NULL argument");
 }
